@@ -109,6 +109,9 @@ def judge(real_text, shadow, rnd, export_text=None, nprobes=12):
         raise S.MonitorError('reference does not parse: %r: %s' % (rf, pf.error))
     cf, err = C.compiles(rf)
     if cf is None:
+        if refs or S.has_kind(shadow, lambda n: n.k in ('Backref', 'Cond', 'Raw')):
+            return Verdict('unspec', detail='reference does not compile (group reference / raw text inside): ' + err,
+                           real=real_text, ref=rf)
         raise S.MonitorError('reference does not compile: %r: %s' % (rf, err))
     pr = C.parse(rt)
     if pr.error:
